@@ -28,7 +28,7 @@ am = assert_overlay()
 from atomman.load import FileFormatError  # noqa: E402
 from props import c07 as C7  # noqa: E402   (system alphabet, column tables, cell rule shared with C07)
 
-chk = Check('C08', 'exploration',
+chk = Check('C08', 'fault_enumeration',
             'full product: C07 systems (orthogonal/triclinic, origin 0/generic, atoms inside / outside by several cells / on '
             'faces, type gap + unused trailing type, N=3/4(/6), with/without velocity, charge, (3,3) float, int extras) x 8 pbc x '
             'every atom_style the system can supply x 8 unit styles x float formats x input forms (str, path, open binary '
